@@ -286,6 +286,10 @@ func hostport(s string) (host, port string) {
 		return "", ""
 	}
 	n := strings.LastIndexByte(s, ':')
+	if n < 0 || strings.HasSuffix(s, "]") {
+		// address without port, e.g. "host" or "[::1]"
+		return s, ""
+	}
 	return s[:n], s[n+1:]
 }
 
